@@ -124,6 +124,19 @@ def run_history(cf, steps, pc_id, M, from_decoded=False, lazy=False):
                 msg.data_set = io.BytesIO(stp['data'])
                 how = (i + M) % 3
                 msg = copy.copy(msg) if how == 0 else copy.deepcopy(msg) if how == 1 else pickle.loads(pickle.dumps(msg))
+            if stp['data'] and (i + pc_id + M) % 5 == 4:
+                # the application spools the data set into a file-like object of its own: the object is handed to the
+                # message while it is still positioned at its end (or even before anything was written to it) and is
+                # rewound afterwards - what counts is what it delivers when the message is sent
+                import io
+                fp = io.BytesIO()
+                if (i + M) % 2:
+                    fp.write(stp['data'])
+                    msg.data_set = fp
+                else:
+                    msg.data_set = fp
+                    fp.write(stp['data'])
+                fp.seek(0)
             if lazy:
                 assoc.send(msg, pc_id)
                 snapshots.append((dict(current), bool(stp['data'])))
